@@ -42,6 +42,16 @@ type parsers struct {
 	run  func(b []byte) (set []pdus.TLV, err error)
 }
 
+// reserialised: a container a parser returned, serialised again, must be the triplets of the set it reports
+// (a gateway forwards what it parsed). Checked before the caller touches the container.
+func reserialised(name string, wire []byte, out []pdus.TLV) error {
+	l2, clean := strictWalk(wire)
+	if !clean || pdus.CanonTLV(l2) != pdus.CanonTLV(out) {
+		return fmt.Errorf("verifmon: %s: the parsed container serialises to %d octets that do not parse back to the set it reports (clean=%v, %d of %d parameters)", name, len(wire), clean, len(l2), len(out))
+	}
+	return nil
+}
+
 func containerParsers() []parsers {
 	return []parsers{
 		// after reading the result the caller uses the container it was given (adds a parameter of its own):
@@ -49,6 +59,9 @@ func containerParsers() []parsers {
 		{"smpp.ReadTLVs", func(b []byte) ([]pdus.TLV, error) {
 			m, err := smpp.ReadTLVs(packet.NewPacketReader(b))
 			out := pdus.ExtractTLVs(reflect.ValueOf(m))
+			if err == nil {
+				err = reserialised("smpp.ReadTLVs", m.Bytes(), out)
+			}
 			m.SetTLV(smpp.NewTLV(0xFFFE, []byte("caller's own")))
 			return out, err
 		}},
@@ -56,12 +69,19 @@ func containerParsers() []parsers {
 			r := packet.NewPacketReader(b)
 			m := smpp.ReadTLVs1(r)
 			out := pdus.ExtractTLVs(reflect.ValueOf(m))
+			err := r.Error()
+			if err == nil {
+				err = reserialised("smpp.ReadTLVs1", m.Bytes(), out)
+			}
 			m.SetTLV(smpp.NewTLV(0xFFFE, []byte("caller's own")))
-			return out, r.Error()
+			return out, err
 		}},
 		{"smgp.ParseOptions", func(b []byte) ([]pdus.TLV, error) {
 			m, err := smgp.ParseOptions(b)
 			out := pdus.ExtractTLVs(reflect.ValueOf(m))
+			if err == nil {
+				err = reserialised("smgp.ParseOptions", m.Serialize(), out)
+			}
 			m.Add(smgp.NewOption(smgp.Tag(0xFFFE), []byte("caller's own")))
 			return out, err
 		}},
@@ -69,8 +89,12 @@ func containerParsers() []parsers {
 			r := packet.NewPacketReader(b)
 			m := smgp.ReadOptions(r)
 			out := pdus.ExtractTLVs(reflect.ValueOf(m))
+			err := r.Error()
+			if err == nil {
+				err = reserialised("smgp.ReadOptions", m.Serialize(), out)
+			}
 			m.Add(smgp.NewOption(smgp.Tag(0xFFFE), []byte("caller's own")))
-			return out, r.Error()
+			return out, err
 		}},
 	}
 }
@@ -206,11 +230,21 @@ func init() {
 					var l []pdus.TLV
 					for i := 0; i < n; i++ {
 						tag := uint16(r.Intn(6))
-						if r.Chance(1, 3) {
+						switch r.Intn(4) {
+						case 0:
 							tag = uint16(r.U32())
+						case 1: // tags the SMPP 3.4 / SMGP 3.0 documents name
+							tag = []uint16{0x0005, 0x0006, 0x001D, 0x001E, 0x0201, 0x0204, 0x020A, 0x020C, 0x0381, 0x0420, 0x0424, 0x0425, 0x0427, 0x1204, 0x130C, 0x1380, 0x1383, 0x0001, 0x0002, 0x0003, 0x0007, 0x000C, 0x0010}[r.Intn(23)]
 						}
 						ln := r.Pick(0, 1, 2, 5, 40)
-						l = append(l, pdus.TLV{Tag: tag, Len: uint16(ln), Val: r.Bytes(ln)})
+						val := r.Bytes(ln)
+						if ln > 0 && r.Chance(1, 3) {
+							val[ln-1] = 0 // a C-octet string with its terminator
+							if ln > 1 && r.Bool() {
+								val[0] = 0
+							}
+						}
+						l = append(l, pdus.TLV{Tag: tag, Len: uint16(ln), Val: val})
 					}
 					b := emit(l)
 					want := pdus.CanonTLV(l) // last occurrence wins
